@@ -95,12 +95,22 @@ def canon_category(nd, base_nd):
         return out
 
     def novars(xs):
-        return [(p, n, re.sub(r'"t": "v", "n": "[^"]*"|"n": "[^"]*", "t": "v"', '"t": "v"', a1), d) for (p, n, a1, d) in xs]
+        rx = r'"t": "v", "n": "[^"]*"|"n": "[^"]*", "t": "v"'
+        return [(p, n, re.sub(rx, '"t": "v"', a1), re.sub(rx, '"t": "v"', d)) for (p, n, a1, d) in xs]
 
     if uniq(flat(a["sel"], [], True)) == uniq(flat(b["sel"], [], True)):
         return "inline-fragment-structure"     # same fields in the same order, different inline fragment wrappers / type conditions
     if uniq(flat(a["sel"], [], False)) == uniq(flat(b["sel"], [], False)):
         return "typename-placeholder"          # ... and a __internal_typename placeholder on one side only
+    def renumbered(xs):
+        names = {}
+
+        def num(m):
+            return '"t": "v", "n": "v%d"' % names.setdefault(m.group(1), len(names))
+        return [(p, n, re.sub(r'"n": "([^"]*)", "t": "v"', num, a1), re.sub(r'"n": "([^"]*)", "t": "v"', num, d)) for (p, n, a1, d) in xs]
+
+    if uniq(renumbered(flat(a["sel"], [], False))) == uniq(renumbered(flat(b["sel"], [], False))):
+        return "variable-names"                # same fields and the same sharing of variables, only their names differ
     if uniq(novars(flat(a["sel"], [], False))) == uniq(novars(flat(b["sel"], [], False))):
         return "variable-sharing"              # same fields, the arguments use variables that are shared differently
     return "other"
@@ -210,6 +220,12 @@ def process(ctx, binary, catalog_path, cases, n1, n3):
         if not r["accept"]:
             # a valid operation that is not admitted is C04's subject; C03 speaks about admitted operations
             rejected["%s: %s" % (r["stage"], c04.norm_msg(r["msg"]))] += 1
+            if r["stage"] in ("normalize", "validate"):
+                # every case is SpecValid (corpus: MC_GQLCore, orbit members: filtered by Gen_C03), so a rejection means that either
+                # the validator rejects a valid operation (C04's findings, listed here under the same message classes) or the first
+                # normalization pass made a valid operation invalid - which is this property
+                report("not-admitted:%s:%s" % (r["stage"], c04.norm_msg(r["msg"])),
+                       "a valid operation is rejected by the admission sequence at stage %s: %s" % (r["stage"], r["msg"]), c, r)
             if r["stage"] in ("extract", "remap", "print"):
                 report("sequence-fails:%s:%s" % (r["stage"], c04.norm_msg(r["msg"])),
                        "the operation passed validation but the rest of the admission sequence failed at stage %s: %s" % (r["stage"], r["msg"]), c, r)
